@@ -308,20 +308,23 @@ func (e *evaluator) evalRulesEx(v Val, rules []gen.Rule, exemplar *Val, depth in
 			s := unq(v.Lit)
 			lim, err := strconv.Atoi(r.Val.Lit)
 			if err != nil {
+				if regexp.MustCompile(`^[0-9]+$`).MatchString(r.Val.Lit) {
+					// a limit beyond the machine word: no string is that long
+					if r.Name == "minLength" {
+						set(Viol, "minLength "+r.Val.Lit+" exceeds any string")
+					}
+					continue
+				}
 				set(Unspec, "limit")
 				continue
 			}
-			nb, nr := len(s), len([]rune(s))
-			bad := func(n int) bool {
-				if r.Name == "minLength" {
-					return n < lim
-				}
-				return n > lim
+			n := len([]rune(s)) // the length of a string is its number of characters (as in JSON Schema / OpenAPI)
+			bad := n > lim
+			if r.Name == "minLength" {
+				bad = n < lim
 			}
-			if bad(nb) != bad(nr) {
-				set(Unspec, "byte length and character length disagree")
-			} else if bad(nb) {
-				set(Viol, fmt.Sprintf("length %d vs %s %d", nb, r.Name, lim))
+			if bad {
+				set(Viol, fmt.Sprintf("length %d vs %s %d", n, r.Name, lim))
 			}
 		case "regex":
 			if v.Kind != gen.KString {
